@@ -13,7 +13,7 @@ import itertools
 from checks import c01, c02
 from vlib import fakesolver, refsem, sexp
 from vlib import gen_expr as G
-from vlib.harness import Failure, Stats, hyp_search, pmap, repo_frame_sig
+from vlib.harness import Failure, HarnessError, Stats, hyp_search, pmap, repo_frame_sig
 
 LEVEL = "exploration"
 NAMES = ["sugar", "sugar_extended", "csugar", "enigma_csp", "cspuz_core"]
@@ -148,10 +148,10 @@ def check_emission(case):
             raise Failure("answer-keys-differ", observed=sorted(prog.keys), expected=want_keys)
     elif prog.keys is not None:
         raise Failure("answer-key-line-unexpected|%s|%s" % (name, mode), observed=prog.keys)
-    # constraints
+    # constraints: the emitted lines, taken together, must denote the conjunction of what was written.
+    # Lines are not required to correspond one-to-one to posted constraints (a duplicate left out or
+    # a conjunction split over two lines denotes the same CSP).
     posted = [refsem.from_cspuz(c) for c in solver.constraints]
-    if len(prog.constraints) != len(posted):
-        raise Failure("constraint-count-differs", observed=len(prog.constraints), expected=len(posted))
     decls = refsem.decls_of(solver.variables)
     if refsem.domain_product(decls) <= 512:
         assignments = [dict(zip([d[1] for d in decls], vals))
@@ -162,55 +162,96 @@ def check_emission(case):
         for salt in range(case["salt"], case["salt"] + 48):
             assignments.append({d[1]: val_of(salt, d[1], d[:1] + d[2:]) for d in decls})
         exhaustive = False
-    # recipes must also agree with the reference meaning of what was written
-    nrec = len(case["constraints"])
-    for k in range(nrec):
-        for a in assignments[:16]:
-            B = [a[v.id] for v in sess.V.b]
-            I = [a[v.id] for v in sess.V.i]
-            if bool(G.rev(case["constraints"][k], B, I)) != bool(refsem.ev(posted[k], a)):
-                raise Failure("dsl-tree-differs-from-written-meaning", observed=k)
-    try:
-        got = sorted(truth_vector(n, assignments) for n in prog.constraints)
-    except (ValueError, IndexError, TypeError, KeyError) as e:
-        raise Failure("emitted-graph-atom-malformed", observed="%s: %s" % (type(e).__name__, e),
-                      expected="n m flags.. edges.. layout")
-    want = [truth_vector(n, assignments) for n in posted[:nrec]]
-    # native atoms: the intended meaning comes from the case (graph, flags), not from the tree
-    for a_ in case.get("atoms", []):
-        vec = []
-        for a in assignments:
-            B = [a[v.id] for v in sess.V.b]
-            I = [a[v.id] for v in sess.V.i]
+
+    def written_at(a):
+        """truth values of the written constraints and atoms (their intended meaning: recipes read by
+        gen_expr.rev, atoms by the graph semantics of the case) under assignment a"""
+        B = [a[v.id] for v in sess.V.b]
+        I = [a[v.id] for v in sess.V.i]
+        out = [bool(G.rev(r, B, I)) for r in case["constraints"]]
+        for a_ in case.get("atoms", []):
             edges = [tuple(e) for e in a_["edges"]]
             if a_["kind"] == "conn":
-                vec.append(refsem.active_vertices_connected(
-                    a_["n"], edges, [bool(G.rev(r, B, I)) for r in a_["active"]]))
+                out.append(bool(refsem.active_vertices_connected(
+                    a_["n"], edges, [bool(G.rev(r, B, I)) for r in a_["active"]])))
             else:
-                vec.append(refsem.graph_division(
+                out.append(bool(refsem.graph_division(
                     a_["n"], edges, [None if r is None else G.rev(r, B, I) for r in a_["sizes"]],
-                    [bool(G.rev(r, B, I)) for r in a_["borders"]]))
-        want.append(tuple(vec))
-    if len(want) != len(posted):
-        raise Failure("posted-constraint-count-unexpected", observed=len(posted), expected=len(want))
-    want = sorted(want)
+                    [bool(G.rev(r, B, I)) for r in a_["borders"]])))
+        return out
+
+    def emitted_at(a):
+        try:
+            return [bool(refsem.ev(n, a)) for n in prog.constraints]
+        except (ValueError, IndexError, TypeError, KeyError) as e:
+            raise Failure("emitted-graph-atom-malformed", observed="%s: %s" % (type(e).__name__, e),
+                          expected="n m flags.. edges.. layout")
+
+    W = [written_at(a) for a in assignments]
+    E = [emitted_at(a) for a in assignments]
+    P = [[bool(refsem.ev(n, a)) for n in posted] for a in assignments]
+    # the Solver's own store must mean what was written (conjunction; per constraint when it has one
+    # entry per written constraint, which is what lets a wrong tree be named)
+    for k, a in enumerate(assignments):
+        if all(P[k]) != all(W[k]):
+            raise Failure("dsl-tree-differs-from-written-meaning", observed=dict(assignment=sorted(a.items())))
+    want = sorted(set(zip(*W))) if W and W[0] else []
+    got = sorted(set(zip(*E))) if E and E[0] else []
+    restructured = False
     if got != want:
-        # find the first posted constraint without a partner, for the report
-        raise Failure("emitted-constraint-denotes-something-else",
-                      observed=dict(text=text[-400:]), expected="same truth function as the posted constraint")
-    # graph atoms: all assignments of their own operands
-    for pn, tn in zip(posted, prog.constraints):
-        if pn[0].startswith("GRAPH_"):
-            ids = sorted(refsem.free_ids(pn))
-            dm = {d[1]: d for d in decls}
-            if refsem.domain_product([dm[i] for i in ids]) <= 1024:
-                for vals in itertools.product(*[refsem.domain(dm[i]) for i in ids]):
-                    a = dict(zip(ids, vals))
-                    # same position is expected for atoms only when texts match position-wise
-                    if tn[0] == pn[0] and refsem.ev(pn, a) != refsem.ev(tn, a):
-                        raise Failure("emitted-graph-atom-denotes-something-else|" + pn[0],
-                                      observed=dict(assignment=vals))
-    return dict(exhaustive=exhaustive, nvars=len(decls), atoms=len(case.get("atoms", [])))
+        # not the same set of truth functions: decide the conjunctions exactly
+        restructured = True
+        for k, a in enumerate(assignments):
+            if all(E[k]) != all(W[k]):
+                raise Failure("emitted-constraint-denotes-something-else",
+                              observed=dict(text=text[-400:], assignment=sorted(a.items()),
+                                            emitted=all(E[k]), written=all(W[k])),
+                              expected="the conjunction of the posted constraints")
+        if not exhaustive:
+            from vlib import refz3
+
+            rs = refz3.RefSolver(decls)
+            m = rs.check([("XOR", ("AND",) + tuple(prog.constraints), ("AND",) + tuple(posted))])
+            if m is not None:
+                a = rs.assignment(m)
+                if all(emitted_at(a)) == all(written_at(a)):
+                    raise HarnessError("refz3 counterexample not confirmed by refsem: %r" % (a,))
+                raise Failure("emitted-constraint-denotes-something-else",
+                              observed=dict(text=text[-400:], assignment=sorted(a.items()),
+                                            emitted=all(emitted_at(a)), written=all(written_at(a))),
+                              expected="the conjunction of the posted constraints")
+    # graph atoms: all assignments of their own operands.  Every posted atom needs an emitted atom of
+    # the same operator with the same truth function; failing that the conjunctions are decided.
+    dm = {d[1]: d for d in decls}
+    for pn in posted:
+        if not pn[0].startswith("GRAPH_"):
+            continue
+        ids = sorted(refsem.free_ids(pn))
+        if refsem.domain_product([dm[i] for i in ids]) > 1024:
+            continue
+        own = [dict(zip(ids, vals)) for vals in itertools.product(*[refsem.domain(dm[i]) for i in ids])]
+        pv = truth_vector(pn, own)
+        cands = [tn for tn in prog.constraints if tn[0] == pn[0]]
+        try:
+            if any(truth_vector(tn, own) == pv for tn in cands if refsem.free_ids(tn) <= set(ids)):
+                continue
+        except (ValueError, IndexError, TypeError, KeyError) as e:
+            raise Failure("emitted-graph-atom-malformed", observed="%s: %s" % (type(e).__name__, e),
+                          expected="n m flags.. edges.. layout")
+        from vlib import refz3
+
+        rs = refz3.RefSolver(decls)
+        m = rs.check([("XOR", ("AND",) + tuple(prog.constraints), ("AND",) + tuple(posted))])
+        restructured = True
+        if m is not None:
+            a = rs.assignment(m)
+            if all(emitted_at(a)) == all(bool(refsem.ev(n, a)) for n in posted):
+                raise HarnessError("refz3 counterexample not confirmed by refsem: %r" % (a,))
+            raise Failure("emitted-graph-atom-denotes-something-else|" + pn[0],
+                          observed=dict(assignment=sorted(a.items())))
+        break
+    return dict(exhaustive=exhaustive, nvars=len(decls), atoms=len(case.get("atoms", [])),
+                restructured=restructured, satisfiable=any(all(w) for w in W))
 
 
 # ------------------------------------------------------------------ replies
@@ -431,6 +472,10 @@ def shard(arg):
             cl.append("emission:id>=10")
         if info["exhaustive"]:
             cl.append("emission:all-assignments")
+        if info["satisfiable"]:
+            cl.append("emission:satisfiable-seen")
+        if info["restructured"]:
+            cl.append("emission:lines-not-one-to-one")
         st.case(canon=case, nontrivial=bool(nt), classes=cl, sample=case if nt else None)
 
     def b_rep(case):
@@ -474,15 +519,17 @@ def run(ctx):
         "three Hypothesis-driven sub-checks over the five backend names: (emission) programs from DSL "
         "recipes plus native graph atoms produced by cspuz.graph with use_graph_primitive=True, mixed "
         "bool/int ids up to 13, random key subsets; the captured text is parsed independently and its "
-        "declarations / key line / constraints (multiset of truth functions over all or 48 sampled "
-        "assignments) compared with the Solver; (reply) scripted well-formed replies of both Java formats; "
+        "declarations / key line compared with the Solver, and the conjunction of its constraint lines "
+        "compared with the conjunction of the written constraints (same set of truth functions over all or 48 "
+        "sampled assignments; otherwise decided exactly by enumeration or by the reference z3 translation); (reply) scripted well-formed replies of both Java formats; "
         "(e2e) the C01 oracle through the stand-in solver incl. a real subprocess. non-trivial = program "
         "with >=11 variables of both sorts or a graph atom / reply with a negative integer or an undecided "
         "key / every e2e case; distinct by case hash")
     ctx.assumptions = [
         "the real Sugar / csugar / cspuz_core binaries are not available offline; CspuzSugarInterface.java is "
         "read as the specification of the reply format and is not executed",
-        "constraint lines are matched to posted constraints as a multiset (line order is not asserted)",
+        "line order, duplicates and the split of a conjunction over lines are not asserted: the emitted lines are "
+        "held to denote the conjunction of the posted constraints",
         "a failure that shows only with permuted assignment lines is reported with the |permuted-lines tag",
     ]
     if ctx.quick():
@@ -493,6 +540,8 @@ def run(ctx):
         ctx.stats.merge(r)
     cl = ctx.stats.classes
     ctx.floor("emission cases with a graph atom", round(cl["emission:graph-atom"] / max(1, cl["emission"]), 3), 0.25)
+    ctx.floor("emission cases whose conjunction is satisfiable (a changed line changes the denotation)",
+              round(cl["emission:satisfiable-seen"] / max(1, cl["emission"]), 3), 0.25)
     ctx.floor("emission cases with ids >= 10", round(cl["emission:id>=10"] / max(1, cl["emission"]), 3), 0.06)
     ctx.floor("replies with a negative integer", round(cl["reply:negative-int"] / max(1, cl["reply"]), 3), 0.15)
     ctx.floor("replies with an undecided key", round(cl["reply:undecided-key"] / max(1, cl["reply"]), 3), 0.10)
